@@ -12,7 +12,7 @@ def setup():
     D = world.mod("mokapot.dataset")
     Q = world.mod("mokapot.qvalues")
     _float = float
-    world.rebind(C, np=symnp, pd=sympd, Parallel=stubs.SParallel, delayed=stubs.sdelayed, os=vfs.os_shim, str=s_str, float=s_float, all=lambda x: symnp.all(x) if hasattr(x, "items") else all_(x))
+    world.rebind(C, np=symnp, pd=sympd, Parallel=stubs.SParallel, delayed=stubs.sdelayed, os=vfs.os_shim, str=s_str, float=s_float, int=s_int, all=lambda x: symnp.all(x) if hasattr(x, "items") else all_(x))
     world.rebind(W, np=symnp, pd=sympd)
     world.rebind(U, np=symnp, pd=sympd, pq=vfs.pq_stub, float=lambda x: x if isinstance(x, core.Sym) else _float(x))
     world.rebind(T, np=symnp, pd=sympd, pq=vfs.pq_stub, pa=vfs.pa_stub)
@@ -51,6 +51,24 @@ def s_float(x=0.0):
 
 
 s_float._symx_dtype = _float
+_int = int
+
+
+def s_int(x=0):
+    """int(): a symbolic number keeps its (truncated) value and renders WITHOUT a decimal point"""
+    import z3
+    from symx import core
+    if isinstance(x, core.SNum):
+        if z3.is_int(x.z):
+            return core.SNum(x.z, x.rng, False)
+        z = x.z
+        return core.SNum(z3.If(z >= 0, z3.ToInt(z), -z3.ToInt(-z)), None, False)
+    if isinstance(x, core.SBool):
+        return core.ite(x, 1, 0)
+    return _int(x)
+
+
+s_int._symx_dtype = _int
 
 
 class PepRecorder:
